@@ -158,6 +158,12 @@ struct Shared {
 /// Runs `prog` once under the schedule `prefix` (thread choices at decision points; after the
 /// prefix the first enabled thread is taken).
 pub fn run_schedule(prog: &Program, prefix: &[usize]) -> RunResult {
+    heartbeat(|| {
+        format!(
+            "scheduled run, chunk size {}, gzip level {}, producer {:?}, consumer wakers {:?} with {} spurious polls, schedule choices {:?}: did not finish",
+            prog.cap, prog.gz_level, prog.prod, prog.policy, prog.spurious, prefix
+        )
+    });
     let c = ctl();
     {
         let mut st = c.st.lock().unwrap();
